@@ -347,6 +347,14 @@ def crc_transfer(eng: Engine, ctx: Ctx, rid: str):
     loc = eng.loc(f, f.node)
     msg = ("param", f.params[0])
     outer = [(lid, info) for lid, info in se.loop_info.items() if info.get("unrolled") is None and isinstance(info["node"], ast.For)]
+    # a tail loop over message[-k:] with k a remainder (len % n) re-reads the WHOLE message when k == 0
+    for lid_, info_ in se.loop_info.items():
+        it_ = info_.get("iter", ("?",))
+        if it_[0] == "slice" and it_[1] == msg and it_[3] == ("const", None) and it_[2][0] == "un" and it_[2][1] in ("-", "neg"):
+            k_ = it_[2][2]
+            if mentions(k_, lambda s_: s_[0] == "bin" and s_[1] == "%"):
+                ctx.bad(rid, f.qualname, "tail loop", expected="each octet of the message processed exactly once", found=f"`for .. in {f.params[0]}[-k:]` with k = {show(k_)[:40]}: when k == 0 the slice is the whole message, which is then processed a second time", **eng.loc(f, info_["node"]))
+                return None
     if len(outer) != 1 or se.unsupported:
         ctx.undecided(rid, f.qualname, "per-octet loop", detail=f"expected exactly one data loop, found {len(outer)}; unsupported: {[type(x).__name__ for x in se.unsupported]}", **loc)
         return None
@@ -954,6 +962,56 @@ def read_returns(eng: Engine, ctx: Ctx, rid: str, model: ReaderModel | None = No
             ctx.check(good, rid, f.qualname, f"iteration end ({kind}) that can leave the loop" + (f" under {guard_text(g)[:60]}" if g else ""), expected="returned variables = (raw, parsed) of the frame assembler",
                       found=f"{names[0]} = {show(a)[:50]}, {names[1]} = {show(b)[:50]}", **loc)
     ctx.instance("iteration ends examined", len(ends), 5)
+    return n
+
+
+def class_level_state(eng: Engine, ctx: Ctx, rid: str, classes=None) -> int:
+    """A mutable object created in a class body is ONE object shared by all instances: `self.x += ...`, `self.x.append(...)`, `self.x[k] = ...` on it
+    (before any per-instance rebinding in the constructor) leaks data between readers / wrappers / messages."""
+    ctx.rule(rid, "no mutable class-level attribute is updated in place through an instance: per-object buffers and maps are created in the constructor")
+    n = 0
+    for cq, cnode in eng.repo.classes.items():
+        if classes is not None and cq not in classes:
+            continue
+        mod, cls = cq.split(".")
+        shared = {}
+        for st in cnode.body:
+            if isinstance(st, (ast.Assign, ast.AnnAssign)) and st.value is not None:
+                v = st.value
+                mutable = isinstance(v, (ast.List, ast.Dict, ast.Set, ast.ListComp, ast.DictComp, ast.SetComp)) or (isinstance(v, ast.Call) and norm(v.func).split(".")[-1] in ("bytearray", "list", "dict", "set", "defaultdict", "deque", "OrderedDict"))
+                if mutable:
+                    for t in (st.targets if isinstance(st, ast.Assign) else [st.target]):
+                        if isinstance(t, ast.Name):
+                            shared[t.id] = st
+        if not shared:
+            continue
+        init = eng.repo.funcs.get(f"{cq}.__init__")
+        rebound = set()
+        if init is not None:
+            selfn = init.params[0] if init.params else "self"
+            for st in init.node.body:  # top-level statements only: unconditional
+                if isinstance(st, ast.Assign):
+                    for t in st.targets:
+                        if isinstance(t, ast.Attribute) and isinstance(t.value, ast.Name) and t.value.id == selfn:
+                            rebound.add(t.attr)
+        for f in eng.repo.methods(mod, cls):
+            selfn = f.params[0] if f.params and not f.is_static else None
+            if selfn is None:
+                continue
+            for node in walk_no_nested(f.node):
+                attr = None
+                if isinstance(node, ast.AugAssign) and isinstance(node.target, ast.Attribute) and isinstance(node.target.value, ast.Name) and node.target.value.id == selfn:
+                    attr, how = node.target.attr, "augmented assignment (in place for a mutable object)"
+                elif isinstance(node, ast.Call) and isinstance(node.func, ast.Attribute) and isinstance(node.func.value, ast.Attribute) and isinstance(node.func.value.value, ast.Name) and node.func.value.value.id == selfn \
+                        and node.func.attr in ("append", "extend", "insert", "pop", "remove", "clear", "update", "setdefault", "add", "discard", "popleft", "appendleft"):
+                    attr, how = node.func.value.attr, f".{node.func.attr}()"
+                elif isinstance(node, ast.Subscript) and isinstance(node.ctx, (ast.Store, ast.Del)) and isinstance(node.value, ast.Attribute) and isinstance(node.value.value, ast.Name) and node.value.value.id == selfn:
+                    attr, how = node.value.attr, "item store / delete"
+                if attr in shared and attr not in rebound:
+                    n += 1
+                    ctx.bad(rid, f.qualname, norm(eng.repo.enclosing_stmt(node))[:80], expected=f"self.{attr} created per instance in __init__", found=f"{how} on `{attr}`, a mutable object created once in the body of class {cls} (line {shared[attr].lineno}) and shared by all its instances", **eng.loc(f, node))
+    if not n:
+        ctx.ok(rid, "package", "mutable class-level attributes updated in place", found="none", file="src/pyrtcm", line=0)
     return n
 
 
